@@ -184,4 +184,26 @@ def StaysTracked (c : Nat) : Limiter → List Req → Prop
   | l, r :: rs => lookup (evictFor l.cfg l.buckets r.ip r.victim) c = lookup l.buckets c
       ∧ StaysTracked c (l.checkWith r.ip r.now r.victim).1 rs
 
+/-! ### rounding: the same bucket with every computed token count off by at most `ε` -/
+
+/-- one `try_consume` evaluated with rounding: the capped token count `w` the implementation
+computes (`(tokens + elapsed·rate).min(max)` in f64) is within `ε` of the exact value and inside
+`[0, max]` (rounding is monotone and `0`, `max` are representable); the comparison with `1.0` and
+the subtraction of `1.0` are exact in binary floating point. -/
+def ApproxStep (ε : Rat) (b : Bucket) (t : Rat) (b' : Bucket) (a : Bool) : Prop :=
+  b'.last = t ∧ b'.maxTokens = b.maxTokens ∧ b'.rate = b.rate ∧
+  ∃ w : Rat, 0 ≤ w ∧ w ≤ b.maxTokens ∧
+    w ≤ min (b.tokens + (t - b.last) * b.rate) b.maxTokens + ε ∧
+    min (b.tokens + (t - b.last) * b.rate) b.maxTokens - ε ≤ w ∧
+    (a = true → 1 ≤ w) ∧ (a = false → w < 1) ∧ b'.tokens = w - (if a then 1 else 0)
+
+/-- a trace of request times and admission flags produced by such steps -/
+def ApproxRun (ε : Rat) : Bucket → List (Rat × Bool) → Prop
+  | _, [] => True
+  | b, p :: tr => ∃ b', ApproxStep ε b p.1 b' p.2 ∧ ApproxRun ε b' tr
+
+/-- number of requests (admitted or not) with a time stamp in the window -/
+def requestsIn (tr : List (Rat × Bool)) (lo hi : Rat) : Nat :=
+  (tr.filter fun p => decide (lo ≤ p.1) && decide (p.1 ≤ hi)).length
+
 end Varpulis.RateLimit
